@@ -202,6 +202,7 @@ func init() {
 	lockOp := func(name string, need string, set string, what string) *model {
 		return &model{doc: what, fams: []string{"held"}, fn: func(r *FnRun, st *State, fr *frame, instr ssa.Instruction, args []*V, k func(*State, *V)) {
 			id := identityLeaves(args[0])[0]
+			r.addLockCand(id)
 			held := sSel(st.comp("held", 1, "Int"), id)
 			r.oblige(st, "lock", name, nil, sEq(held, need), r.posOf(instr), fmt.Sprintf("%s b%d", name, instr.Block().Index))
 			st.assume(sEq(held, need))
